@@ -76,7 +76,8 @@ def cases(draw):
         # make sure folder reuse by another run (after the first one wrote something) is well represented
         ops = [["new_run", 0, 0], ["calibrate", draw(st.integers(1, 2))], ["new_run", len(cfgs) - 1, 0],
                ["calibrate", draw(st.integers(1, 3))]] + ops[1:4]
-    return {"cfgs": cfgs, "ops": ops}
+    # saving folders named relative to the working directory: "" (the directory itself), a plain name, a nested path
+    return {"cfgs": cfgs, "ops": ops, "relative_folders": draw(st.integers(0, 5)) == 0}
 
 
 def build(cfg, folder):
@@ -134,6 +135,10 @@ def check_json(ctx: Ctx, case):
     cfgs, ops = case["cfgs"], case["ops"]
     root = tempfile.mkdtemp(prefix="c04-")
     folders = [os.path.join(root, f"f{i}") for i in range(3)]
+    cwd0 = os.getcwd()
+    if case.get("relative_folders"):
+        os.chdir(root)
+        folders = ["", "f1", os.path.join("nested", "f2")]
     owner = {}          # folder -> run id that last wrote it
     writes = {}         # run id -> number of checkpoints written
     run_id, cal, model, cfg = -1, None, None, None
@@ -183,7 +188,7 @@ def check_json(ctx: Ctx, case):
                     cal = Calibrator.restore_from_checkpoint(cal.saving_folder, model)
                     classes.add("restore-and-continue")
                     continue
-                if wrote:
+                if wrote is not None:
                     if wrote in owner and owner[wrote] != run_id:
                         reuse = True
                         classes.add("folder-reuse")
@@ -193,8 +198,10 @@ def check_json(ctx: Ctx, case):
                     if not verify(ctx, sub, case, cal, wrote, model, where):
                         break
     finally:
+        os.chdir(cwd0)
         shutil.rmtree(root, ignore_errors=True)
-        ctx.count(sub, case, reuse or multi or s17, sorted(classes) + (["17-digit-loss"] if s17 else []))
+        ctx.count(sub, case, reuse or multi or s17, sorted(classes) + (["17-digit-loss"] if s17 else []) +
+                  (["relative-folders"] if case.get("relative_folders") else []))
 
 
 # ---- SQLite back-end ------------------------------------------------------------------------------------------------
